@@ -181,8 +181,9 @@ impl<'a> CaseRunner<'a> {
         // finding K5 (C19): the execution of a task on the only require path between a reader and the generator was
         // aborted by an earlier build; its dependencies are gone, and the generator's next write (or the reader's next
         // read) is diagnosed as a hidden dependency although the tasks contain none
-        fs.push(Finding { prop: "C19", sig: "K5-legality-path-through-aborted-task".into(), at,
-          msg: format!("after an aborted build a later build aborts for a violation that does not exist: the only require path between the reader and the writer named here runs through a task whose execution was aborted (its dependencies were dropped when it started) and that has not run since: {}", msg) });
+        let text = format!("after an aborted build a later build aborts for a violation that does not exist: the only require path between the reader and the writer named here runs through a task whose execution was aborted (its dependencies were dropped when it started) and that has not run since: {}", msg);
+        fs.push(Finding { prop: "C19", sig: "K5-legality-path-through-aborted-task".into(), at, msg: text.clone() });
+        fs.push(Finding { prop: "C20", sig: "K5-legality-path-through-aborted-task".into(), at, msg: text });
       } else if self.opts.wellformed && kind != "injected-panic" && kind != "user-panic" {
         fs.push(Finding { prop: "C20", sig: format!("abort-in-well-formed-program:{}", kind), msg: format!("a program that contains no violation in any state aborted: {}", msg), at });
       }
@@ -359,11 +360,17 @@ impl<'a> CaseRunner<'a> {
     if sh.reaches(x, w) { return false; }
     let p = self.prog.clone();
     let mut r = RefRun::new(&p, &rec.pre_world);
+    // (collecting and lenient: only the require structure of the from-scratch build is of interest here)
+    r.collect = true;
+    r.lenient = true;
     let known: Vec<u32> = self.drv.shadow.known.iter().copied().collect();
     for t in &known { r.eval(*t); }
     if r.viol.is_some() || !r.reaches(x, w) { return false; }
     (0..p.n_tasks() as u32).any(|t| t != x && sh.tasks[t as usize].status == Status::Partial && r.reaches(x, t) && (t == w || r.reaches(t, w)))
   }
+
+  /// Whether some task is still in the state an aborted execution of an *earlier* session left it in.
+  fn any_abort_before(&self, rec: &SessionRec) -> bool { rec.shadow_before.tasks.iter().any(|t| t.status == Status::Partial) }
 
   /// Maintains `order_tainted` from what pie actually did in this session; returns whether a task that was tainted
   /// before this session is still tainted (not re-executed) - then the session may have reused it.
@@ -460,6 +467,9 @@ impl<'a> CaseRunner<'a> {
     let executed_now: BTreeSet<u32> = rec.events.iter().filter_map(|e| if let Ev::ExecStart { task } = e { Some(*task) } else { None }).collect();
     let solo = |t: u32| { let mut r = RefRun::new(&p, &rec.pre_world); r.eval(t); r };
     let pattern: Option<&'static str> = match (kind, cur, other, res) {
+      // finding K5: reader and writer are connected (from scratch) only through a task whose execution an earlier build
+      // aborted and that has not run since
+      ("hidden-dependency", Some(_), Some(_), Some(_)) if self.any_abort_before(rec) && self.path_through_aborted_task(rec, msg) => Some("K5-legality-path-through-aborted-task"),
       ("hidden-dependency", Some(c), Some(o), Some(r)) if abort_in_read(&rec.events) => {
         let rr = solo(o);
         if !executed_now.contains(&o) && rr.writer_of[r as usize] != Some(o) { Some("K3-stale-write-edge-hidden-read") } else { let _ = c; None }
